@@ -91,10 +91,32 @@ def build(ub, algebra_text):
                 continue
             raise AnchorError(f"write_node arm for {vs} is not a write!")
         kw, kids, attrs = w
-        if kw not in readers:
-            raise AnchorError(f"writer emits keyword `{kw}` for {vs} but the reader has no supported arm for it")
-        prefix = readers[kw]
+        kw_of = {v: kw for v in vs}
+        mk = re.match(r"\{([a-z_]+)\}$", kw)
+        if mk:
+            # the keyword is computed: `let NAME = FUNC(expr);` with FUNC a table `match expr { Expr::V(..) => "kw", .. }` in the same file
+            ml = re.search(r"let\s+" + mk.group(1) + r"\s*=\s*([a-z_][a-z0-9_]*)\(expr\);", a.body)
+            if not ml:
+                raise AnchorError(f"write_node: keyword `{kw}` for {vs} is not a literal and not a table lookup")
+            tf = ssrc.find_fn(ml.group(1))
+            table = {}
+            for ta in match_arms(tf.body, find_match(tf.body, 0, "expr")):
+                lit = re.match(r'^\s*"([a-z0-9_]+)"\s*$', ta.body)
+                for tv in re.findall(r"Expr::([A-Za-z]+)", ta.pat):
+                    if lit:
+                        table[tv] = lit.group(1)
+            missing_kw = [v for v in vs if v not in table]
+            if missing_kw:
+                raise AnchorError(f"{ml.group(1)}: no string literal for {missing_kw}")
+            kw_of = {v: table[v] for v in vs}
         for v in vs:
+            if kw_of[v] not in readers:
+                raise AnchorError(f"writer emits keyword `{kw_of[v]}` for {v} but the reader has no supported arm for it")
+        if False:
+            raise AnchorError(f"writer emits keyword `{kw}` for {vs} but the reader has no supported arm for it")
+        for v in vs:
+            kw = kw_of[v]
+            prefix = readers[kw]
             info = variants[v]
             # bind every field by name: tuple fields get f0, f1, ..
             if info["kind"] == "tuple":
